@@ -5,7 +5,7 @@ from props import netprops
 
 LEVEL = "proof"
 RULE = ("filters: insertion sequences over the 18 filter kinds x 3 groups (quick: all single insertions, sampled pairs/triples, "
-        "random sequences up to 8; thorough: exhaustive up to 3 insertions by kind/group with sampled arguments) x all regions; the "
+        "random sequences up to 8, whole groups of 9-18 kinds; thorough: exhaustive up to 3 insertions by kind/group with sampled arguments) x all regions; the "
         "request bytes the implementation sent are parsed by the reference grammar and compared with the denotation computed "
         "independently (last filter of a kind wins, per group). paging: page histories of 1-6 pages x 0-230 entries with the "
         "terminator at any page/position, or a last page that ends on its own seed instead of the terminator; result, seeds and request count compared with the reference. Ill-formed histories "
@@ -134,6 +134,12 @@ def run(rep, tier, seed, replay=None):
         seqs += [list(rnd.sample(allops, 2)) for _ in range(300)] + [[rnd.choice(allops) for _ in range(2)] for _ in range(150)]
         seqs += [[rnd.choice(allops) for _ in range(3)] for _ in range(300)]
         nrand = 300
+    # large groups: the count of a NAND / NOR group is a decimal number that may have two digits (10-18 kinds in one group)
+    for g in "ao":
+        for n in (9, 10, 11, 17, 18):
+            seqs.append([(g, k) for k in rnd.sample(range(18), n)])
+    seqs.append([(g, k) for g in "ao" for k in range(18)])
+    seqs.append([(g, k) for g in "pao" for k in range(18)])
     seqs += [[]] * 4
     for _ in range(nrand):
         # same kind repeated in one group (replacement) and across groups
